@@ -163,10 +163,13 @@ func FileOp(h fileLike, t []string) string {
 	case "read":
 		b := make([]byte, atoi(t[2]))
 		n, err := h.Read(b)
-		return fmt.Sprintf("bytes=%s err:%s", corr.Hex(b[:n]), FileErrClass(err))
+		res := fmt.Sprintf("bytes=%s err:%s", corr.Hex(b[:n]), FileErrClass(err))
+		scribble(b)
+		return res
 	case "readat":
 		b := make([]byte, atoi(t[2]))
 		n, err := h.ReadAt(b, atoi64(t[3]))
+		defer scribble(b)
 		return fmt.Sprintf("bytes=%s err:%s", corr.Hex(b[:n]), FileErrClass(err))
 	case "write":
 		b := corr.UnHex(t[2])
